@@ -1558,6 +1558,12 @@ func c11RegressPairs() []c11Job {
 		c.SkipVerify = true
 		c.Sigs = []int{0x0503, 0x0807}
 	})
+	// a fatal alert raised after the DTLS 1.3 handshake keys exist goes out unprotected and is ignored by the peer
+	add("client-certificate-required-dtls13", func(c, s *c11Cfg) {
+		s.Key, s.ClientAuth = 1, 4
+		c.Min, c.Max, s.Min, s.Max = 3, 3, 3, 3
+	})
+	add("client-certificate-required-dtls12", func(_, s *c11Cfg) { s.Key, s.ClientAuth = 1, 4 })
 	add("server-ignores-client-signature-algorithms", func(c, s *c11Cfg) {
 		s.Key = 2
 		c.Sigs, s.Sigs = []int{0x0403}, []int{0x0503, 0x0403}
